@@ -38,6 +38,9 @@ def model(chk: Check, tier: str, wd):
     chk.add(states=r.distinct, transitions=r.generated)
 
 
+KEY_ALTERNATIVES = [1]        # other values tried per key field (more in the thorough tier)
+
+
 def variants(d, rng: random.Random):
     """(tag, payload) of one group"""
     base_codes = {i: corpus.neutral_code(f, rng) for i, f in enumerate(d["fields"]) if f["off"] >= 0 and f["len"] >= 0}
@@ -49,11 +52,14 @@ def variants(d, rng: random.Random):
     out.append(("nonkey", corpus.build_payload(d, nonkey)))
     for i, f in enumerate(d["fields"]):
         if f["pk"] and i in base_codes and f["match"] == -1:
-            for _ in range(8):
+            got = 0
+            for _ in range(8 * KEY_ALTERNATIVES[0]):
                 c = corpus.neutral_code(f, rng)
                 if c != base_codes[i]:
                     out.append((f"key{i+1}", corpus.build_payload(d, {**base_codes, i: c})))
-                    break
+                    got += 1
+                    if got >= KEY_ALTERNATIVES[0]:
+                        break
     # a key field that is "not available" (all ones) is a key value like any other: it must neither be skipped nor
     # wipe the other key parts or the definition's id
     for i, f in enumerate(d["fields"]):
@@ -134,13 +140,14 @@ def bind(chk: Check, tier: str, seed: int):
 
 
 def _bind(chk, tier, seed, wd, db, rng, dec, dec2, off, late):
+    KEY_ALTERNATIVES[0] = 6 if tier == "thorough" else 1
     groups, meta, lines, line_ref = [], [], [], []
     n_late = [0]
     cross: list = []          # one observation per definition with a not-available key: hashes of different definitions differ
     defs = [d for d in db["defs"] if d["decodable"] and d["static"]]
     keyed = [d for d in defs if any(f["pk"] for f in d["fields"])]
     plain = [d for d in defs if not any(f["pk"] for f in d["fields"])]
-    chosen = keyed + plain[:: (3 if tier != "selftest" else 12)]
+    chosen = keyed + plain[:: (1 if tier == "thorough" else 3 if tier != "selftest" else 12)]
     chosen.sort(key=lambda d: d["idx"])          # database order: siblings of one PGN follow each other
     for d in chosen:
         obs = []
